@@ -695,7 +695,7 @@ P("seed-C19-13", ["C19"], "seeded/C19-13/patch.diff")
 P("seed-C19-14", ["C19"], "seeded/C19-14/patch.diff")
 
 # ------------------------------------------------------------------ round-11 seeds (38; 23 at first contact, 34 after the rules of DESIGN 7.11;
-# C01-15, C01-16, C16-15 are value-level and stay unreported, C03-15 is reported by C12)
+# C01-15, C01-16 are value-level and stay unreported, C03-15 is reported by C12)
 P("seed-C02-15", ["C02"], "seeded/C02-15/patch.diff")
 P("seed-C02-16", ["C02"], "seeded/C02-16/patch.diff")
 P("seed-C03-16", ["C03"], "seeded/C03-16/patch.diff")
@@ -721,6 +721,7 @@ P("seed-C14-15", ["C14"], "seeded/C14-15/patch.diff")
 P("seed-C14-16", ["C14"], "seeded/C14-16/patch.diff")
 P("seed-C15-15", ["C15"], "seeded/C15-15/patch.diff")
 P("seed-C15-16", ["C15"], "seeded/C15-16/patch.diff")
+P("seed-C16-15", ["C16"], "seeded/C16-15/patch.diff")
 P("seed-C16-16", ["C16"], "seeded/C16-16/patch.diff")
 P("seed-C17-15", ["C17"], "seeded/C17-15/patch.diff")
 P("seed-C17-16", ["C17"], "seeded/C17-16/patch.diff")
